@@ -21,7 +21,10 @@ def sh(cmd, cwd=None, timeout=900):
         return p.returncode, p.stdout+p.stderr
     except subprocess.TimeoutExpired as e:
         return 124, 'TIMEOUT'
-for idx in range(offset, len(muts), stride):
+order = list(range(offset, len(muts), stride))
+if len(sys.argv) > 3 and sys.argv[3] == 'rev':
+    order.reverse()
+for idx in order:
     if idx in done: continue
     m=muts[idx]
     if (m['file'],m['line'],m['kind'],m['new'].strip()) in donekeys: continue
